@@ -128,8 +128,10 @@ impl<T: Alignment> Write for AlignedCursor<T> {
         }
 
         let cap = self.vec.len().saturating_mul(std::mem::size_of::<T>());
-        let rem = cap - self.pos;
-        if rem < len {
+        // The position can be beyond the capacity (e.g., after a seek):
+        // as in std::io::Cursor, the gap is filled with zeros, even
+        // when the write is empty.
+        if cap < self.pos + len {
             self.vec.resize(
                 (self.pos + len).div_ceil(std::mem::size_of::<T>()),
                 T::default(),
